@@ -74,6 +74,21 @@ INFO = {
                      "first", ["C15", "C03"]),
     "C18-2": ("C18", "a failed inbound handshake (non-upgrade request to a Ws listener): the accepted resource is no longer "
                      "deregistered, its descriptor stays open and the peer never sees a close; silent", ["C18", "C17"]),
+    "C02-2": ("C02", "a size prefix of 3 or more bytes (message >= 16384 bytes) cut twice, so that one chunk consists only of "
+                     "continuation bytes while a partial prefix is stored: the middle byte is dropped", ["C02", "C01"]),
+    "C07-2": ("C07", "more than 128 timer commands queued between two receive calls: enque_timers applies a bounded batch, "
+                     "an expired timer behind the batch is invisible for that call (plain before expired timer, later "
+                     "deadline before earlier, try_receive None with a due timer)", ["C07", "C08"]),
+    "C08-2": ("C08", "more than 1024 timer commands queued while the receiver is away, the Cancel of a timer behind them and "
+                     "its deadline passing before the next receive call: the cancelled timer is delivered", ["C08", "C07"]),
+    "C16-2": ("C16", "two timers with different deadlines pending and the receiver blocking until the earlier one: the wake-up "
+                     "is armed on the latest timer", ["C16", "C07"]),
+    "C17-2": ("C17", "a FramedTcp peer sending 11 or more continuation bytes in one read and more bytes in a later read: "
+                     "MAX_ENCODED_SIZE - stored.len() underflows (panic of the network thread)", ["C17", "C02"]),
+    "C19-2": ("C19", "a string with leading/trailing whitespace: trimmed before parsing (classified as a socket address, or "
+                     "stored trimmed)", ["C19"]),
+    "C11-2": ("C11", "for_each (sync): two or more Message chunks of a Tcp connection cached before the listener call are "
+                     "replayed newest first: the concatenation is no longer the sent stream", ["C11", "C15", "C03"]),
     "C19-1": ("C19", "SocketAddrV6 with non-zero flowinfo/scope_id converted to RemoteAddr: the fields are dropped", ["C19"]),
 }
 
